@@ -19,6 +19,7 @@ import (
 	"net/netip"
 	"sort"
 	"strings"
+	"sync"
 	"sync/atomic"
 	"testing"
 	"testing/synctest"
@@ -325,6 +326,119 @@ func c13KrnCore(bpf *bpfObjects) *controlPlaneCore {
 	return core
 }
 
+// One ReleaseUdpConnStateTuples call step by step (yield points releaseConnState.afterBeginRelease and
+// .afterKernelDelete): while the tuples are being deleted a new owner's Retain of one of them parks; it must
+// still be parked after the kernel delete and complete only with FinalizeRelease.  Returns false when the
+// yield points are not in the tree (then the caller performs the release in one go).
+// goroutines currently parked in Retain inside a release window (the tracker has no counter of its own)
+var c13KrnBlocked, c13KrnBlockedCore = 0, -1
+
+func c13KrnWindow(t *testing.T, s *VStream, stats *VStats, core *controlPlaneCore, c int, ks []int, kk []bpfTuplesKey,
+	keys []bpfTuplesKey, own map[int]int, digest func() string) bool {
+	var mu sync.Mutex
+	var gid int64
+	var parked chan struct{}
+	var at string
+	verifYieldHook = func(name string, _ ...any) {
+		if !strings.HasPrefix(name, "releaseConnState.") {
+			return
+		}
+		mu.Lock()
+		mine := c13Goid() == gid
+		mu.Unlock()
+		if !mine {
+			return
+		}
+		ch := make(chan struct{})
+		mu.Lock()
+		parked, at = ch, name
+		mu.Unlock()
+		<-ch
+	}
+	defer func() { verifYieldHook = nil }()
+	take := func() (chan struct{}, string) {
+		mu.Lock()
+		defer mu.Unlock()
+		ch, a := parked, at
+		parked, at = nil, ""
+		return ch, a
+	}
+	done := make(chan error, 1)
+	go func() {
+		mu.Lock()
+		gid = c13Goid()
+		mu.Unlock()
+		done <- core.ReleaseUdpConnStateTuples(kk)
+	}()
+	synctest.Wait()
+	ch, a := take()
+	if ch == nil {
+		// no yield point in this tree: the release ran to completion
+		<-done
+		stats.Inc("krn.window.unavailable")
+		s.Emit(fmt.Sprintf("krn release %d %s", c, c13JoinInts(ks)), digest())
+		return true
+	}
+	if a != "releaseConnState.afterBeginRelease" {
+		t.Fatalf("c13: release parked at %s first", a)
+	}
+	stats.Inc("krn.window")
+	s.Emit(fmt.Sprintf("krn rbegin %d %s", c, c13JoinInts(ks)), digest())
+	// a new flow with one of the tuples whose last owner is leaving
+	victim := -1
+	for _, k := range ks {
+		if own[k] == 0 {
+			victim = k
+			break
+		}
+	}
+	retained := make(chan struct{})
+	if victim >= 0 {
+		go func() {
+			core.RetainUdpConnStateTuples([]bpfTuplesKey{keys[victim]})
+			close(retained)
+		}()
+		synctest.Wait()
+		select {
+		case <-retained: // not parked: a Retain completed while the tuple's kernel entry is being deleted
+		default:
+			c13KrnBlocked, c13KrnBlockedCore = 1, c
+		}
+		s.Emit(fmt.Sprintf("krn retain %d %d", c, victim), digest())
+	}
+	stillParked := func() {
+		select {
+		case <-retained:
+			c13KrnBlocked = 0
+		default:
+		}
+	}
+	close(ch)
+	synctest.Wait()
+	if ch2, a2 := take(); ch2 != nil {
+		if a2 != "releaseConnState.afterKernelDelete" {
+			t.Fatalf("c13: release parked at %s second", a2)
+		}
+		stillParked()
+		s.Emit(fmt.Sprintf("krn rdelete %d", c), digest())
+		close(ch2)
+	} else {
+		stillParked()
+		s.Emit(fmt.Sprintf("krn rdelete %d", c), digest())
+	}
+	if err := <-done; err != nil {
+		t.Fatalf("c13: ReleaseUdpConnStateTuples: %v", err)
+	}
+	synctest.Wait()
+	if victim >= 0 {
+		<-retained
+		own[victim]++
+	}
+	c13KrnBlocked, c13KrnBlockedCore = 0, -1
+	s.Emit(fmt.Sprintf("krn rfinal %d", c), digest())
+	return true
+}
+
 func c13RunKrn(t *testing.T, stats *VStats) {
 	probe := c13NewConnStateMap()
 	if probe == nil {
@@ -347,114 +461,123 @@ func c13RunKrn(t *testing.T, stats *VStats) {
 		nseq = 3000
 	}
 	for seq := 0; seq < nseq; seq++ {
-		shared := r.Chance(0.4)
-		maps := []*ebpf.Map{c13NewConnStateMap(), nil}
-		bpfs := []*bpfObjects{{bpfMaps: bpfMaps{ConnStateMap: maps[0]}}, nil}
-		if shared {
-			maps[1], bpfs[1] = maps[0], bpfs[0]
-		} else {
-			maps[1] = c13NewConnStateMap()
-			bpfs[1] = &bpfObjects{bpfMaps: bpfMaps{ConnStateMap: maps[1]}}
-		}
-		cores := []*controlPlaneCore{c13KrnCore(bpfs[0]), c13KrnCore(bpfs[1])}
-		own := []map[int]int{{}, {}} // harness-side count of holders per core (to generate disciplined releases)
-		if shared {
-			own[1] = own[0]
-		}
-		digest := func() string {
-			part := func(c int) string {
-				x := &c13Trk{t: cores[c].getUdpConnStateTracker()}
-				return fmt.Sprintf("t%d[%s] k%d=%s", c, x.digest(idx), c, c13JoinInts(c13KernelKeys(maps[c], idx)))
+		r := r.Fork()
+		synctest.Test(t, func(t *testing.T) {
+			shared := r.Chance(0.4)
+			maps := []*ebpf.Map{c13NewConnStateMap(), nil}
+			bpfs := []*bpfObjects{{bpfMaps: bpfMaps{ConnStateMap: maps[0]}}, nil}
+			if shared {
+				maps[1], bpfs[1] = maps[0], bpfs[0]
+			} else {
+				maps[1] = c13NewConnStateMap()
+				bpfs[1] = &bpfObjects{bpfMaps: bpfMaps{ConnStateMap: maps[1]}}
 			}
-			return part(0) + " " + part(1)
-		}
-		mode := "distinct"
-		if shared {
-			mode = "shared"
-			stats.Inc("krn.seq.shared")
-		} else {
-			stats.Inc("krn.seq.distinct")
-		}
-		s.Emit("krn reset "+mode, "ok")
-		nops := 5 + r.Intn(30)
-		for i := 0; i < nops; i++ {
-			c := r.Intn(2)
-			switch x := r.Intn(10); {
-			case x < 3:
-				k := r.Intn(nkeys)
-				if err := maps[c].Put(keys[k], uint64(1)); err != nil {
-					t.Fatalf("c13: map put: %v", err)
-				}
-				cores[c].RetainUdpConnStateTuples([]bpfTuplesKey{keys[k]})
-				own[c][k]++
-				stats.Inc("krn.flow")
-				s.Emit(fmt.Sprintf("krn flow %d %d", c, k), digest())
-			case x < 5:
-				k := r.Intn(nkeys)
-				cores[c].RetainUdpConnStateTuples([]bpfTuplesKey{keys[k]})
-				own[c][k]++
-				stats.Inc("krn.retain")
-				s.Emit(fmt.Sprintf("krn retain %d %d", c, k), digest())
-			case x < 9:
-				var ks []int
-				for k := 0; k < nkeys; k++ {
-					if own[c][k] > 0 && r.Chance(0.5) {
-						ks = append(ks, k)
-					}
-				}
-				if len(ks) == 0 {
-					continue
-				}
-				kk := make([]bpfTuplesKey, len(ks))
-				last := false
-				for j, k := range ks {
-					kk[j] = keys[k]
-					if own[c][k] == 1 {
-						last = true
-					}
-					own[c][k]--
-				}
-				if err := cores[c].ReleaseUdpConnStateTuples(kk); err != nil {
-					t.Fatalf("c13: ReleaseUdpConnStateTuples: %v", err)
-				}
-				if last {
-					stats.Inc("krn.release.lastOwner")
-				} else {
-					stats.Inc("krn.release.sharedTupleSurvives")
-				}
-				s.Emit(fmt.Sprintf("krn release %d %s", c, c13JoinInts(ks)), digest())
-			default:
-				var ks []int
-				for k := 0; k < nkeys; k++ {
-					if own[1-c][k] > 0 && r.Chance(0.5) {
-						ks = append(ks, k)
-					}
-				}
-				if len(ks) == 0 {
-					continue
-				}
-				kk := make([]bpfTuplesKey, len(ks))
-				for j, k := range ks {
-					kk[j] = keys[k]
-				}
-				cores[c].TransferRetainedUdpConnStateTuplesFrom(cores[1-c], kk)
-				if !shared {
-					for _, k := range ks {
-						own[c][k]++
-						own[1-c][k]--
-					}
-				}
-				stats.Inc("krn.transfer." + mode)
-				s.Emit(fmt.Sprintf("krn transfer %d %d %s", c, 1-c, c13JoinInts(ks)), digest())
+			cores := []*controlPlaneCore{c13KrnCore(bpfs[0]), c13KrnCore(bpfs[1])}
+			own := []map[int]int{{}, {}} // harness-side count of holders per core (to generate disciplined releases)
+			if shared {
+				own[1] = own[0]
 			}
-		}
-		for _, c := range cores {
-			_ = c.Close()
-		}
-		maps[0].Close()
-		if !shared {
-			maps[1].Close()
-		}
+			digest := func() string {
+				part := func(c int) string {
+					x := &c13Trk{t: cores[c].getUdpConnStateTracker()}
+					if shared || c == c13KrnBlockedCore {
+						x.blocked.Store(int32(c13KrnBlocked))
+					}
+					return fmt.Sprintf("t%d[%s] k%d=%s", c, x.digest(idx), c, c13JoinInts(c13KernelKeys(maps[c], idx)))
+				}
+				return part(0) + " " + part(1)
+			}
+			mode := "distinct"
+			if shared {
+				mode = "shared"
+				stats.Inc("krn.seq.shared")
+			} else {
+				stats.Inc("krn.seq.distinct")
+			}
+			s.Emit("krn reset "+mode, "ok")
+			nops := 5 + r.Intn(30)
+			for i := 0; i < nops; i++ {
+				c := r.Intn(2)
+				switch x := r.Intn(10); {
+				case x < 3:
+					k := r.Intn(nkeys)
+					if err := maps[c].Put(keys[k], uint64(1)); err != nil {
+						t.Fatalf("c13: map put: %v", err)
+					}
+					cores[c].RetainUdpConnStateTuples([]bpfTuplesKey{keys[k]})
+					own[c][k]++
+					stats.Inc("krn.flow")
+					s.Emit(fmt.Sprintf("krn flow %d %d", c, k), digest())
+				case x < 5:
+					k := r.Intn(nkeys)
+					cores[c].RetainUdpConnStateTuples([]bpfTuplesKey{keys[k]})
+					own[c][k]++
+					stats.Inc("krn.retain")
+					s.Emit(fmt.Sprintf("krn retain %d %d", c, k), digest())
+				case x < 9:
+					var ks []int
+					for k := 0; k < nkeys; k++ {
+						if own[c][k] > 0 && r.Chance(0.5) {
+							ks = append(ks, k)
+						}
+					}
+					if len(ks) == 0 {
+						continue
+					}
+					kk := make([]bpfTuplesKey, len(ks))
+					last := false
+					for j, k := range ks {
+						kk[j] = keys[k]
+						if own[c][k] == 1 {
+							last = true
+						}
+						own[c][k]--
+					}
+					if last && r.Chance(0.5) && c13KrnWindow(t, s, stats, cores[c], c, ks, kk, keys, own[c], digest) {
+						continue
+					}
+					if err := cores[c].ReleaseUdpConnStateTuples(kk); err != nil {
+						t.Fatalf("c13: ReleaseUdpConnStateTuples: %v", err)
+					}
+					if last {
+						stats.Inc("krn.release.lastOwner")
+					} else {
+						stats.Inc("krn.release.sharedTupleSurvives")
+					}
+					s.Emit(fmt.Sprintf("krn release %d %s", c, c13JoinInts(ks)), digest())
+				default:
+					var ks []int
+					for k := 0; k < nkeys; k++ {
+						if own[1-c][k] > 0 && r.Chance(0.5) {
+							ks = append(ks, k)
+						}
+					}
+					if len(ks) == 0 {
+						continue
+					}
+					kk := make([]bpfTuplesKey, len(ks))
+					for j, k := range ks {
+						kk[j] = keys[k]
+					}
+					cores[c].TransferRetainedUdpConnStateTuplesFrom(cores[1-c], kk)
+					if !shared {
+						for _, k := range ks {
+							own[c][k]++
+							own[1-c][k]--
+						}
+					}
+					stats.Inc("krn.transfer." + mode)
+					s.Emit(fmt.Sprintf("krn transfer %d %d %s", c, 1-c, c13JoinInts(ks)), digest())
+				}
+			}
+			for _, c := range cores {
+				_ = c.Close()
+			}
+			maps[0].Close()
+			if !shared {
+				maps[1].Close()
+			}
+		})
 	}
 	stats.Add("krn.ops", s.N)
 }
